@@ -2,6 +2,7 @@
 header layout, option framing table of the encoder, container order."""
 from harness import *
 from absdom import Aff
+import os
 import bitprov
 import interp
 from rules.c05 import REG
@@ -352,6 +353,7 @@ def check_encoder_table(prog, rep):
         if r and call.ctx.body["path"] == body["path"]:
             for s2, v in r:
                 s2.ghost["delta"] = v.aff
+                s2.cells[("gh", "delta")] = v   # keeps the symbols alive over the loop's joins
         return r
     I.extra_models["<&u16 as core::ops::arith::Sub<u16>>::sub"] = sub_model
 
@@ -360,8 +362,12 @@ def check_encoder_table(prog, rep):
         if ctx.body["path"] == body["path"] and isinstance(v, IntV) and v.ty == (16, False) and len(v.aff.t) >= 1:
             keys = [sy for sy, co in v.aff.t if co == 1 and (I_.syminfo.get(sy) or ("",))[0] == "btree_key"]
             if len(keys) == 1 and (len(v.aff.t) == 2 or (len(v.aff.t) == 1 and v.aff.c <= 0)):
-                if v.aff.c == 0 and "delta" not in s.ghost and (len(v.aff.t) == 1 or any(co == -1 for sy, co in v.aff.t if sy != keys[0])):
+                two = len(v.aff.t) == 2 and any(co == -1 for sy, co in v.aff.t if sy != keys[0])
+                cur = s.ghost.get("delta")
+                # `number` itself is a candidate only until a difference `number - previous` is seen
+                if v.aff.c == 0 and (cur is None and (len(v.aff.t) == 1 or two) or (two and cur is not None and len(cur.t) == 1 and cur.t[0][0] == keys[0])):
                     s.ghost["delta"] = v.aff
+                    s.cells[("gh", "delta")] = v
     I.value_hooks.append(delta_value)
     I, res = run(prog, body, args=[a0, lim], st=st, I=I)
     ok_rows = 0
@@ -382,6 +388,8 @@ def check_encoder_table(prog, rep):
                 return "ext16"
             return None
         cd, cl = cls(delta), cls(ln)
+        if os.environ.get("VERIF_DEBUG_C01"):
+            print("ROW delta", delta, s.range(delta), "ln", ln, s.range(ln), cd, cl, [f for f in s.facts][:12])
         if cd is None or cl is None:
             rep.ob("C01.4", "encoder|class", False,
                    "an option header is emitted on a path where delta (%s) or length (%s) straddles the 13 / 269 thresholds: the nibble and the extension bytes are not chosen by the same test" % (s.range(delta), s.range(ln)), site)
